@@ -764,6 +764,12 @@ func c18Classify(c ttyCase, s c18Stats) (bool, []string) {
 		}
 		if sp.Kind == "vga" && (sp.W > 12 || sp.H > 12) {
 			add("vga-grid>12")
+			if s.attaches == 0 && s.bufScrollsActive > 0 {
+				add("vga-grid>12-buffer-scrolled-while-active")
+			}
+		}
+		if sp.Kind == "fb" && (sp.W > 9 || sp.H > 7) {
+			add("fb-grid>9x7")
 		}
 		if sp.Kind == "fb" {
 			add(fmt.Sprintf("fb-%dbpp", sp.Bpp))
